@@ -17,9 +17,24 @@ const unsigned mEntity = mN | mP | mO | mM, mIndex = mC | mX;
 
 using T = CellmlElementType;
 
+// Services that live as long as the run: they remember entities of the universe (external variables, the annotator's model
+// and id index, the importer's library, the analyser model and its cache) while the history goes on changing and destroying them.
+struct Live
+{
+    AnalyserPtr analyser;
+    AnalyserModelPtr am;
+    GeneratorPtr generator;
+    AnnotatorPtr annotator;
+    ImporterPtr importer;
+    ValidatorPtr validator;
+    VariablePtr lastVariable; // held strongly on purpose only while it is the "other" variable of the next call
+    std::weak_ptr<Variable> previous;
+};
+
 struct Svc
 {
     Ctx &ctx;
+    Live *live = nullptr;
     int bad = B_NULL;
     int slot = 0;
     long variant = 0;
@@ -190,7 +205,7 @@ inline bool emptyItem(const AnyCellmlElementPtr &i)
 }
 
 // A small model that analyses as a valid ODE model.
-inline AnalyserModelPtr validAnalysis(Svc &s, VariablePtr &x, VariablePtr &t)
+inline AnalyserModelPtr validAnalysis(Svc &s, VariablePtr &x, VariablePtr &t, AnalyserPtr an = nullptr)
 {
     auto m = Model::create("ode");
     auto c = Component::create("c");
@@ -204,7 +219,9 @@ inline AnalyserModelPtr validAnalysis(Svc &s, VariablePtr &x, VariablePtr &t)
     c->addVariable(x);
     c->setMath("<math xmlns=\"http://www.w3.org/1998/Math/MathML\" xmlns:cellml=\"http://www.cellml.org/cellml/2.0#\"><apply><eq/><apply><diff/><bvar><ci>t</ci></bvar><ci>x</ci></apply>"
                "<cn cellml:units=\"dimensionless\">1</cn></apply></math>");
-    auto an = Analyser::create();
+    if (an == nullptr) {
+        an = Analyser::create();
+    }
     an->analyseModel(m);
     auto am = an->model();
     checkLogger(s.ctx, an, "analyser", "analyseModel(valid)", am == nullptr || !am->isValid());
@@ -660,6 +677,145 @@ inline std::vector<SvcEntry> buildSvcTable()
         u->requiresImports();
         u->isBaseUnit();
         u->isResolved();
+    });
+
+    // ------------------------------------------------ long-lived services fed with handles of the universe
+    auto nameOf = [](const ComponentPtr &c) { return c != nullptr ? c->name() : std::string("no_such_component"); };
+    recv("Live.Analyser.addExternalVariable", K_VAR, 0, [=](Svc &s) {
+        auto &l = *s.live;
+        if (l.analyser == nullptr) {
+            l.analyser = Analyser::create();
+        }
+        auto v = std::dynamic_pointer_cast<Variable>(s.recv);
+        auto ev = AnalyserExternalVariable::create(v);
+        auto other = l.previous.lock();
+        if (other != nullptr && s.variant % 2 == 0) {
+            ev->addDependency(other);
+        }
+        size_t before = l.analyser->externalVariableCount();
+        bool r = l.analyser->addExternalVariable(ev);
+        s.expect(l.analyser->externalVariableCount() == before + (r ? 1 : 0), "addExternalVariable() returned " + str(r) + " but the count went from " + str(before) + " to " + str(l.analyser->externalVariableCount()));
+        l.previous = v;
+    });
+    recv("Live.Analyser.lookups", K_VAR, 0, [=](Svc &s) {
+        auto &l = *s.live;
+        if (l.analyser == nullptr) {
+            return;
+        }
+        auto v = std::dynamic_pointer_cast<Variable>(s.recv);
+        auto c = std::dynamic_pointer_cast<Component>(v->parent());
+        ModelPtr m;
+        for (ParentedEntityPtr p = c; p != nullptr; p = p->parent()) {
+            if (auto pm = std::dynamic_pointer_cast<Model>(p)) {
+                m = pm;
+            }
+        }
+        bool has = l.analyser->containsExternalVariable(m, nameOf(c), v->name());
+        auto ev = l.analyser->externalVariable(m, nameOf(c), v->name());
+        s.expect(has == (ev != nullptr), "containsExternalVariable() and externalVariable() disagree");
+        for (size_t i = 0; i <= l.analyser->externalVariableCount(); ++i) {
+            auto e = l.analyser->externalVariable(i);
+            s.expect((e != nullptr) == (i < l.analyser->externalVariableCount()), "externalVariable(index) null-ness disagrees with the count");
+            if (e != nullptr) {
+                e->variable();
+                for (size_t d = 0; d <= e->dependencyCount(); ++d) {
+                    e->dependency(d);
+                }
+            }
+        }
+        if (s.variant % 4 == 0 && has) {
+            size_t before = l.analyser->externalVariableCount();
+            bool r = l.analyser->removeExternalVariable(m, nameOf(c), v->name());
+            s.expect(r && l.analyser->externalVariableCount() + 1 == before, "removeExternalVariable(model, component, variable) of a registered variable did not remove exactly one");
+        }
+    });
+    // (the model analysed is a small valid one of the step's own: what the long-lived analyser remembers from the universe
+    // are its external variables, whose variables may meanwhile have been moved, orphaned or destroyed; analysing models in
+    // arbitrary invalid states is the validator's robustness, not an ownership matter)
+    recv("Live.Analyser.analyseModel", K_VAR, 0, [=](Svc &s) {
+        auto &l = *s.live;
+        if (l.analyser == nullptr) {
+            l.analyser = Analyser::create();
+        }
+        VariablePtr x, t;
+        l.am = validAnalysis(s, x, t, l.analyser);
+        dumpAnalyserModel(l.am);
+    });
+    recv("Live.AnalyserModel.queries", K_VAR, 0, [=](Svc &s) {
+        auto &l = *s.live;
+        if (l.am == nullptr) {
+            return;
+        }
+        auto v = std::dynamic_pointer_cast<Variable>(s.recv);
+        auto other = l.previous.lock();
+        bool ab = l.am->areEquivalentVariables(v, other), ba = l.am->areEquivalentVariables(other, v);
+        s.expect(ab == ba, "areEquivalentVariables() is not symmetric on a long-lived analyser model");
+        dumpAnalyserModel(l.am); // walks variables, equations, dependencies: whatever they refer to must still be there
+        if (l.generator == nullptr) {
+            l.generator = Generator::create();
+        }
+        l.generator->setModel(l.am);
+        l.generator->interfaceCode();
+        l.generator->implementationCode();
+        l.previous = v;
+    });
+    recv("Live.Annotator.setModel", K_MODEL, 0, [=](Svc &s) {
+        auto &l = *s.live;
+        if (l.annotator == nullptr) {
+            l.annotator = Annotator::create();
+        }
+        l.annotator->setModel(std::dynamic_pointer_cast<Model>(s.recv));
+    });
+    recv("Live.Annotator.lookups", K_MODEL, 0, [=](Svc &s) {
+        auto &l = *s.live;
+        if (l.annotator == nullptr) {
+            return;
+        }
+        auto ids = l.annotator->ids();
+        size_t total = 0;
+        for (auto &id : ids) {
+            size_t n = l.annotator->itemCount(id);
+            total += n;
+            auto items = l.annotator->items(id);
+            s.expect(items.size() == n, "items(id).size() differs from itemCount(id)");
+            auto one = l.annotator->item(id);
+            s.expect(n != 1 || !emptyItem(one), "item(id) found nothing for an id that ids() lists once");
+            for (size_t k = 0; k <= n; ++k) {
+                l.annotator->item(id, k);
+            }
+        }
+        l.annotator->duplicateIds();
+        l.annotator->item("no_such_id");
+        chk(s, l.annotator, "annotator", "item(unknown id)", true);
+        (void)total;
+    });
+    recv("Live.Importer.library", K_MODEL, 0, [=](Svc &s) {
+        auto &l = *s.live;
+        if (l.importer == nullptr) {
+            l.importer = Importer::create();
+        }
+        auto m = std::dynamic_pointer_cast<Model>(s.recv);
+        std::string key = "key" + str(s.variant % 3);
+        if (s.variant % 5 == 4) {
+            l.importer->removeAllModels();
+            s.expect(l.importer->libraryCount() == 0, "removeAllModels() left models in the library");
+        } else if (!l.importer->addModel(m, key)) {
+            bool r = l.importer->replaceModel(m, key);
+            s.expect(r, "neither addModel() nor replaceModel() accepted a live model");
+        }
+        for (size_t i = 0; i <= l.importer->libraryCount(); ++i) {
+            auto lm = l.importer->library(i);
+            s.expect((lm != nullptr) == (i < l.importer->libraryCount()), "library(index) null-ness disagrees with libraryCount()");
+            l.importer->library(l.importer->key(i));
+        }
+    });
+    recv("Live.Importer.flattenModel", K_MODEL, 0, [=](Svc &s) {
+        auto &l = *s.live;
+        if (l.importer == nullptr) {
+            l.importer = Importer::create();
+        }
+        auto flat = l.importer->flattenModel(std::dynamic_pointer_cast<Model>(s.recv));
+        chk(s, l.importer, "importer", "flattenModel(handle)", flat == nullptr);
     });
 
     // the @model-dropped twins of the annotator entries
